@@ -116,11 +116,12 @@ Section WInv.
     sl_val (get_slot s x) <> None \/ sl_tx_gone (get_slot s x) = true.
 
   (* ids: handed out in order, never reused (no wrap) *)
-  Record GA s : Prop := {
+  Record GAd (d : nat) s : Prop := {
     a_lt : forall i k, nth_error (calls s) i = Some k -> idp (c_phase k) = true -> c_id k < next_id s;
     a_inj : forall i j ki kj, nth_error (calls s) i = Some ki -> nth_error (calls s) j = Some kj ->
             idp (c_phase ki) = true -> idp (c_phase kj) = true -> c_id ki = c_id kj -> i = j;
-    a_cnt : next_id s + N.of_nat (count is_new (calls s)) <= N.of_nat (length (calls s)) }.
+    a_cnt : next_id s + N.of_nat (count is_new (calls s)) <= N.of_nat (length (calls s)) + N.of_nat d }.
+  Notation GA := (GAd 0).
 
   (* queued cancellations belong to calls that are over *)
   Record GC s : Prop := {
@@ -133,7 +134,7 @@ Section WInv.
     forall i k, nth_error (calls s) i = Some k -> c_phase k = PAwaiting -> loc s (c_id k).
 
   (* the bounded request queue: waiters and permit accounting *)
-  Record GW s : Prop := {
+  Record GW (d : nat) s : Prop := {
     w_acq : forall w, In w (waiters s) ->
                       exists k, nth_error (calls s) w = Some k /\ c_phase k = PAcquiring;
     w_nd : NoDup (waiters s);
@@ -141,7 +142,7 @@ Section WInv.
     w_in : forall i k, nth_error (calls s) i = Some k -> c_phase k = PAcquiring -> In i (waiters s);
     w_closed : rx_closed s = true -> waiters s = [];
     w_acct : rx_closed s = false ->
-             (length (queue s) + permits s + count is_asg (calls s) = q_cap s)%nat }.
+             (length (queue s) + permits s + count is_asg (calls s) + d = q_cap s)%nat }.
 
   Definition dead s : Prop := (exists a, finished s = Some (DErr a)) \/ dropped s = true.
 
@@ -149,14 +150,15 @@ Section WInv.
     r_closed : rx_closed s = true -> terminal s <> None \/ dropped s = true;
     r_dead : dead s -> rx_closed s = true /\ queue s = [] /\ inflight s = [] }.
 
-  Record Inv s : Prop := {
-    iv_a : GA s; iv_c : GC s; iv_l : GL s; iv_w : GW s; iv_r : GR s; iv_k : K s }.
+  (* everything but the location invariant and the two tables *)
+  Record IX s : Prop := { ix_a : GA s; ix_c : GC s; ix_w : GW 0 s }.
+  Record Inv s : Prop := { iv_x : IX s; iv_l : GL s; iv_r : GR s; iv_k : K s }.
 
   Lemma assigned_count_eq s : assigned_count s = count is_asg (calls s).
   Proof. reflexivity. Qed.
 
   (* ---------------------------------------------------------------- frames of the groups *)
-  Lemma GA_frame s s' : calls s' = calls s -> next_id s' = next_id s -> GA s -> GA s'.
+  Lemma GA_frame {d} s s' : calls s' = calls s -> next_id s' = next_id s -> GAd d s -> GAd d s'.
   Proof. intros E1 E2 [A B C]. constructor; rewrite ?E1, ?E2; assumption. Qed.
   Lemma GC_frame s s' :
     calls s' = calls s -> next_id s' = next_id s -> cancels s' = cancels s -> GC s -> GC s'.
@@ -170,10 +172,10 @@ Section WInv.
   Proof.
     intros E1 E2 E3 E4 H i k Hk Hp. rewrite E1 in Hk. eapply loc_frame; eauto.
   Qed.
-  Lemma GW_frame s s' :
+  Lemma GW_frame d s s' :
     calls s' = calls s -> waiters s' = waiters s -> permits s' = permits s ->
     rx_closed s' = rx_closed s -> length (queue s') = length (queue s) -> q_cap s' = q_cap s ->
-    GW s -> GW s'.
+    GW d s -> GW d s'.
   Proof. intros E1 E2 E3 E4 E5 E6 []. constructor; rewrite ?E1, ?E2, ?E3, ?E4, ?E5, ?E6; assumption. Qed.
   Lemma GR_frame s s' :
     rx_closed s' = rx_closed s -> terminal s' = terminal s -> dropped s' = dropped s ->
@@ -184,4 +186,819 @@ Section WInv.
   Lemma K_frame s s' :
     inflight s' = inflight s -> timers s' = timers s -> max_if s' = max_if s -> K s -> K s'.
   Proof. apply K_eq. Qed.
+
+  (* ---------------------------------------------------------------- set_phase *)
+  Ltac sp := unfold set_phase; destruct (nth_error _ _); reflexivity.
+  Lemma sp_next_id s i p : next_id (set_phase s i p) = next_id s. Proof. sp. Qed.
+  Lemma sp_handles s i p : handles (set_phase s i p) = handles s. Proof. sp. Qed.
+  Lemma sp_q_cap s i p : q_cap (set_phase s i p) = q_cap s. Proof. sp. Qed.
+  Lemma sp_permits s i p : permits (set_phase s i p) = permits s. Proof. sp. Qed.
+  Lemma sp_queue s i p : queue (set_phase s i p) = queue s. Proof. sp. Qed.
+  Lemma sp_waiters s i p : waiters (set_phase s i p) = waiters s. Proof. sp. Qed.
+  Lemma sp_rx_closed s i p : rx_closed (set_phase s i p) = rx_closed s. Proof. sp. Qed.
+  Lemma sp_cancels s i p : cancels (set_phase s i p) = cancels s. Proof. sp. Qed.
+  Lemma sp_inflight s i p : inflight (set_phase s i p) = inflight s. Proof. sp. Qed.
+  Lemma sp_timers s i p : timers (set_phase s i p) = timers s. Proof. sp. Qed.
+  Lemma sp_slots s i p : slots (set_phase s i p) = slots s. Proof. sp. Qed.
+  Lemma sp_max_if s i p : max_if (set_phase s i p) = max_if s. Proof. sp. Qed.
+  Lemma sp_tr s i p : tr (set_phase s i p) = tr s. Proof. sp. Qed.
+  Lemma sp_fused s i p : fused (set_phase s i p) = fused s. Proof. sp. Qed.
+  Lemma sp_terminal s i p : terminal (set_phase s i p) = terminal s. Proof. sp. Qed.
+  Lemma sp_finished s i p : finished (set_phase s i p) = finished s. Proof. sp. Qed.
+  Lemma sp_dropped s i p : dropped (set_phase s i p) = dropped s. Proof. sp. Qed.
+  Lemma sp_now s i p : now (set_phase s i p) = now s. Proof. sp. Qed.
+  Lemma sp_plog s i p : plog (set_phase s i p) = plog s. Proof. sp. Qed.
+
+  Lemma sp_calls s i p :
+    calls (set_phase s i p) =
+    match nth_error (calls s) i with Some k => set_nth i (with_phase k p) (calls s) | None => calls s end.
+  Proof. unfold set_phase. destruct (nth_error _ _); reflexivity. Qed.
+
+  Lemma sp_length s i p : length (calls (set_phase s i p)) = length (calls s).
+  Proof. rewrite sp_calls. destruct (nth_error _ _); [apply set_nth_length|reflexivity]. Qed.
+
+  Lemma nth_set_phase s i p j :
+    nth_error (calls (set_phase s i p)) j =
+    if Nat.eqb j i then option_map (fun k => with_phase k p) (nth_error (calls s) i)
+    else nth_error (calls s) j.
+  Proof.
+    rewrite sp_calls. destruct (nth_error (calls s) i) as [k|] eqn:E.
+    - rewrite nth_set_nth, E. reflexivity.
+    - destruct (Nat.eqb_spec j i) as [->|]; [rewrite E|]; reflexivity.
+  Qed.
+
+  Lemma nth_set_phase_inv s i p j k' :
+    nth_error (calls (set_phase s i p)) j = Some k' ->
+    exists k, nth_error (calls s) j = Some k /\ c_id k' = c_id k /\
+      ((j <> i /\ k' = k) \/ (j = i /\ c_phase k' = p)).
+  Proof.
+    rewrite nth_set_phase. destruct (Nat.eqb_spec j i) as [->|Hn].
+    - destruct (nth_error (calls s) i) as [k|]; cbn; [|discriminate].
+      intros [= <-]. exists k. cbn. auto.
+    - intro H. exists k'. auto.
+  Qed.
+
+  Lemma count_set_phase f s i p k :
+    nth_error (calls s) i = Some k ->
+    (count f (calls (set_phase s i p)) + b2n (f k) = count f (calls s) + b2n (f (with_phase k p)))%nat.
+  Proof. intro E. rewrite sp_calls, E. apply count_set_nth, E. Qed.
+
+  Lemma set_phase_none s i p : nth_error (calls s) i = None -> set_phase s i p = s.
+  Proof. intro E. unfold set_phase. rewrite E. reflexivity. Qed.
+
+  Lemma GA_set_phase {d} s i p :
+    GAd d s -> p <> PNew ->
+    (forall k, nth_error (calls s) i = Some k -> idp p = true -> idp (c_phase k) = true) ->
+    GAd d (set_phase s i p).
+  Proof.
+    intros [A B C] Hp Hk. constructor.
+    - intros j k' Hj Hi. rewrite sp_next_id.
+      destruct (nth_set_phase_inv _ _ _ _ _ Hj) as (k & E & Eid & [[Hn ->]|[-> Hph]]).
+      + eapply A; eassumption.
+      + rewrite Eid. eapply A; [exact E|]. apply Hk; [exact E|]. rewrite <- Hph. exact Hi.
+    - intros j1 j2 k1 k2 H1 H2 I1 I2 Eid.
+      destruct (nth_set_phase_inv _ _ _ _ _ H1) as (k1' & E1 & Eid1 & D1).
+      destruct (nth_set_phase_inv _ _ _ _ _ H2) as (k2' & E2 & Eid2 & D2).
+      apply (B j1 j2 k1' k2' E1 E2); [| |congruence].
+      + destruct D1 as [[_ ->]|[-> Hph]]; [exact I1|]. apply Hk; [exact E1|]. rewrite <- Hph; exact I1.
+      + destruct D2 as [[_ ->]|[-> Hph]]; [exact I2|]. apply Hk; [exact E2|]. rewrite <- Hph; exact I2.
+    - rewrite sp_next_id, sp_length.
+      destruct (nth_error (calls s) i) as [k|] eqn:E; [|rewrite (set_phase_none _ _ _ E); exact C].
+      pose proof (count_set_phase is_new s i p k E) as H.
+      assert (X : is_new (with_phase k p) = false) by (unfold is_new; cbn; destruct p; congruence).
+      rewrite X in H. cbn [b2n] in H. lia.
+  Qed.
+
+  Lemma GC_set_phase s i p :
+    GC s -> (forall k, nth_error (calls s) i = Some k -> idp p = true -> idp (c_phase k) = true) ->
+    GC (set_phase s i p).
+  Proof.
+    intros [A B] Hk. constructor; rewrite ?sp_cancels, ?sp_next_id; [exact A|].
+    intros x j k' Hx Hj Hi.
+    destruct (nth_set_phase_inv _ _ _ _ _ Hj) as (k & E & Eid & [[Hn ->]|[-> Hph]]).
+    - eapply B; eassumption.
+    - rewrite Eid. eapply B; [exact Hx|exact E|]. apply Hk; [exact E|]. rewrite <- Hph; exact Hi.
+  Qed.
+
+  Lemma loc_set_phase s i p x : loc (set_phase s i p) x <-> loc s x.
+  Proof. unfold loc, get_slot. rewrite sp_queue, sp_inflight, sp_slots. tauto. Qed.
+
+  Lemma GL_set_phase s i p :
+    GL s -> (p = PAwaiting -> forall k, nth_error (calls s) i = Some k -> loc s (c_id k)) ->
+    GL (set_phase s i p).
+  Proof.
+    intros H Hp j k' Hj Hph. apply loc_set_phase.
+    destruct (nth_set_phase_inv _ _ _ _ _ Hj) as (k & E & Eid & [[Hn ->]|[-> Hph']]).
+    - eapply H; eassumption.
+    - rewrite Eid. eapply Hp; [congruence|exact E].
+  Qed.
+
+  Lemma GW_set_phase d s i p :
+    GW d s ->
+    (forall k, nth_error (calls s) i = Some k -> c_phase k <> PAcquiring /\ c_phase k <> PAssigned) ->
+    p <> PAcquiring -> p <> PAssigned -> GW d (set_phase s i p).
+  Proof.
+    intros [A B C D E F] Hk P1 P2.
+    destruct (nth_error (calls s) i) as [k0|] eqn:E0;
+      [|rewrite (set_phase_none _ _ _ E0); constructor; assumption].
+    destruct (Hk _ eq_refl) as [K1 K2].
+    constructor; rewrite ?sp_waiters, ?sp_rx_closed, ?sp_permits, ?sp_queue, ?sp_q_cap; try assumption.
+    - intros w Hw. destruct (A w Hw) as (k & Ek & Ep). exists k. split; [|exact Ep].
+      rewrite nth_set_phase. destruct (Nat.eqb_spec w i) as [->|]; [congruence|exact Ek].
+    - intros j k' Hj Hph.
+      destruct (nth_set_phase_inv _ _ _ _ _ Hj) as (k & Ek & _ & [[Hn ->]|[-> Hph']]); [|congruence].
+      eapply D; eassumption.
+    - intro Hc. rewrite <- (F Hc).
+      pose proof (count_set_phase is_asg s i p k0 E0) as H.
+      assert (X1 : is_asg k0 = false) by (unfold is_asg; destruct (c_phase k0); congruence).
+      assert (X2 : is_asg (with_phase k0 p) = false) by (unfold is_asg; cbn; destruct p; congruence).
+      rewrite X1, X2 in H. cbn [b2n] in H. lia.
+  Qed.
+
+  Lemma GR_set_phase s i p : GR s -> GR (set_phase s i p).
+  Proof.
+    apply GR_frame; [apply sp_rx_closed|apply sp_terminal|apply sp_dropped|apply sp_finished
+                    |apply sp_queue|apply sp_inflight].
+  Qed.
+  Lemma K_set_phase s i p : K s -> K (set_phase s i p).
+  Proof. apply K_frame; [apply sp_inflight|apply sp_timers|apply sp_max_if]. Qed.
+
+  (* ---------------------------------------------------------------- oneshot slots *)
+  Lemma get_set_slot s id x id' :
+    get_slot (set_slot s id x) id' = if N.eqb id' id then x else get_slot s id'.
+  Proof.
+    unfold get_slot, set_slot. cbn [slots upd_slots]. rewrite alookup_aset.
+    destruct (N.eqb id' id); reflexivity.
+  Qed.
+
+  Lemma loc_set_slot s id x y :
+    (sl_val (get_slot s id) <> None -> sl_val x <> None) ->
+    (sl_tx_gone (get_slot s id) = true -> sl_tx_gone x = true) ->
+    loc s y -> loc (set_slot s id x) y.
+  Proof.
+    intros H1 H2. unfold loc. rewrite get_set_slot. cbn [queue inflight set_slot upd_slots].
+    destruct (N.eqb_spec y id) as [->|]; tauto.
+  Qed.
+  Lemma loc_slot_send s id o y : loc s y -> loc (slot_send s id o) y.
+  Proof.
+    unfold slot_send. destruct (sl_rx_closed _); apply loc_set_slot; cbn; congruence.
+  Qed.
+  Lemma loc_slot_tx_drop s id y : loc s y -> loc (slot_tx_drop s id) y.
+  Proof. apply loc_set_slot; cbn; congruence. Qed.
+  Lemma loc_slot_rx_close s id y : loc s y -> loc (slot_rx_close s id) y.
+  Proof. apply loc_set_slot; cbn; congruence. Qed.
+  Lemma loc_slot_send_same s id o : loc (slot_send s id o) id.
+  Proof.
+    unfold loc, slot_send. right; right; right.
+    destruct (sl_rx_closed _); rewrite get_set_slot, N.eqb_refl; reflexivity.
+  Qed.
+  Lemma loc_slot_tx_drop_same s id : loc (slot_tx_drop s id) id.
+  Proof. unfold loc, slot_tx_drop. right; right; right. rewrite get_set_slot, N.eqb_refl. reflexivity. Qed.
+
+  Lemma GL_mono s s' : calls s' = calls s -> (forall x, loc s x -> loc s' x) -> GL s -> GL s'.
+  Proof. intros E H G i k Hk Hp. rewrite E in Hk. apply H. eapply G; eassumption. Qed.
+
+  (* ---------------------------------------------------------------- slots only *)
+  Lemma IX_upd_slots s v : IX s -> IX (upd_slots s v).
+  Proof.
+    intros [A C W]. constructor.
+    - eapply GA_frame; [| |exact A]; reflexivity.
+    - eapply GC_frame; [| | |exact C]; reflexivity.
+    - eapply GW_frame; [| | | | | |exact W]; reflexivity.
+  Qed.
+  Lemma IX_slot_send s id o : IX s -> IX (slot_send s id o).
+  Proof. unfold slot_send. destruct (sl_rx_closed _); apply IX_upd_slots. Qed.
+  Lemma IX_slot_tx_drop s id : IX s -> IX (slot_tx_drop s id).
+  Proof. apply IX_upd_slots. Qed.
+  Lemma IX_slot_rx_close s id : IX s -> IX (slot_rx_close s id).
+  Proof. apply IX_upd_slots. Qed.
+  Lemma calls_slot_send s id o : calls (slot_send s id o) = calls s.
+  Proof. apply (tf_calls _ _ (TFrame_slot_send s id o)). Qed.
+  Lemma GL_slot_send s id o : GL s -> GL (slot_send s id o).
+  Proof. apply GL_mono; [apply calls_slot_send|intro; apply loc_slot_send]. Qed.
+  Lemma GL_slot_tx_drop s id : GL s -> GL (slot_tx_drop s id).
+  Proof. apply GL_mono; [reflexivity|intro; apply loc_slot_tx_drop]. Qed.
+  Lemma GL_slot_rx_close s id : GL s -> GL (slot_rx_close s id).
+  Proof. apply GL_mono; [reflexivity|intro; apply loc_slot_rx_close]. Qed.
+
+  (* the location invariant with one request id in transit (dequeued, not yet stored) *)
+  Definition GLx s (x : N) : Prop :=
+    forall i k, nth_error (calls s) i = Some k -> c_phase k = PAwaiting -> c_id k = x \/ loc s (c_id k).
+  Lemma GL_GLx s x : GL s -> GLx s x.
+  Proof. intros H i k Hk Hp. right. eapply H; eassumption. Qed.
+  Lemma GLx_fix s s' x :
+    calls s' = calls s -> (forall y, loc s y -> loc s' y) -> loc s' x -> GLx s x -> GL s'.
+  Proof.
+    intros E H Hx G i k Hk Hp. rewrite E in Hk. destruct (G i k Hk Hp) as [->|L]; [exact Hx|apply H, L].
+  Qed.
+
+  (* ---------------------------------------------------------------- release_permit *)
+  Ltac rp := unfold release_permit; destruct (waiters _); [reflexivity|];
+             unfold set_phase; destruct (nth_error _ _); reflexivity.
+  Lemma rp_next_id s : next_id (release_permit s) = next_id s. Proof. rp. Qed.
+  Lemma rp_q_cap s : q_cap (release_permit s) = q_cap s. Proof. rp. Qed.
+  Lemma rp_queue s : queue (release_permit s) = queue s. Proof. rp. Qed.
+  Lemma rp_rx_closed s : rx_closed (release_permit s) = rx_closed s. Proof. rp. Qed.
+  Lemma rp_cancels s : cancels (release_permit s) = cancels s. Proof. rp. Qed.
+  Lemma rp_inflight s : inflight (release_permit s) = inflight s. Proof. rp. Qed.
+  Lemma rp_timers s : timers (release_permit s) = timers s. Proof. rp. Qed.
+  Lemma rp_slots s : slots (release_permit s) = slots s. Proof. rp. Qed.
+  Lemma rp_terminal s : terminal (release_permit s) = terminal s. Proof. rp. Qed.
+  Lemma rp_finished s : finished (release_permit s) = finished s. Proof. rp. Qed.
+  Lemma rp_dropped s : dropped (release_permit s) = dropped s. Proof. rp. Qed.
+
+  Lemma GW_release_permit s : GW 1 s -> GW 0 (release_permit s).
+  Proof.
+    intros [A B C D E F]. unfold release_permit. destruct (waiters s) as [|w r] eqn:Ew.
+    - constructor; cbn [waiters permits queue rx_closed calls q_cap upd_q].
+      + intros w [].
+      + constructor.
+      + congruence.
+      + intros i k Hk Hp. exact (D i k Hk Hp).
+      + reflexivity.
+      + intro Hc. specialize (F Hc). lia.
+    - destruct (A w (or_introl eq_refl)) as (k & Ek & Ep).
+      inversion B as [|? ? Hn Hd]; subst.
+      set (s1 := upd_q s (permits s) (queue s) r (rx_closed s)).
+      assert (Ek1 : nth_error (calls s1) w = Some k) by exact Ek.
+      constructor; rewrite ?sp_waiters, ?sp_rx_closed, ?sp_permits, ?sp_queue, ?sp_q_cap;
+        cbn [waiters permits queue rx_closed q_cap upd_q s1].
+      + intros w' Hw'. destruct (A w' (or_intror Hw')) as (k' & Ek' & Ep'). exists k'. split; [|exact Ep'].
+        rewrite nth_set_phase. destruct (Nat.eqb_spec w' w) as [->|]; [contradiction|exact Ek'].
+      + exact Hd.
+      + intros Hc _. apply C; [exact Hc|discriminate].
+      + intros j k' Hj Hph.
+        destruct (nth_set_phase_inv _ _ _ _ _ Hj) as (k0 & Ek0 & _ & [[Hne ->]|[-> Hph']]); [|congruence].
+        destruct (D j k0 Ek0 Hph) as [->|Hin]; [congruence|exact Hin].
+      + intro Hc. specialize (E Hc). discriminate.
+      + intro Hc. specialize (F Hc).
+        pose proof (count_set_phase is_asg s1 w PAssigned k Ek1) as H.
+        assert (X1 : is_asg k = false) by (unfold is_asg; rewrite Ep; reflexivity).
+        rewrite X1 in H. cbn [b2n is_asg with_phase c_phase] in H. cbn [calls upd_q s1] in H. lia.
+  Qed.
+
+  Lemma release_permit_phase s d :
+    GW d s -> release_permit s = match waiters s with
+                                 | w :: r => set_phase (upd_q s (permits s) (queue s) r (rx_closed s)) w PAssigned
+                                 | [] => upd_q s (S (permits s)) (queue s) [] (rx_closed s) end.
+  Proof. reflexivity. Qed.
+
+  Lemma GA_release_permit d s : GW d s -> GA s -> GA (release_permit s).
+  Proof.
+    intros W G. unfold release_permit. destruct (waiters s) as [|w r] eqn:Ew.
+    - eapply GA_frame; [| |exact G]; reflexivity.
+    - destruct (w_acq _ _ W w) as (k & Ek & Ep); [rewrite Ew; left; reflexivity|].
+      apply GA_set_phase; [eapply GA_frame; [| |exact G]; reflexivity|discriminate|].
+      cbn [calls upd_q]. intros k' Ek' _. rewrite Ek in Ek'. injection Ek' as <-. rewrite Ep. reflexivity.
+  Qed.
+  Lemma GC_release_permit d s : GW d s -> GC s -> GC (release_permit s).
+  Proof.
+    intros W G. unfold release_permit. destruct (waiters s) as [|w r] eqn:Ew.
+    - eapply GC_frame; [| | |exact G]; reflexivity.
+    - destruct (w_acq _ _ W w) as (k & Ek & Ep); [rewrite Ew; left; reflexivity|].
+      apply GC_set_phase; [eapply GC_frame; [| | |exact G]; reflexivity|].
+      cbn [calls upd_q]. intros k' Ek' _. rewrite Ek in Ek'. injection Ek' as <-. rewrite Ep. reflexivity.
+  Qed.
+  Lemma loc_release_permit s x : loc (release_permit s) x <-> loc s x.
+  Proof. unfold loc, get_slot. rewrite rp_queue, rp_inflight, rp_slots. tauto. Qed.
+  Lemma GLx_release_permit s x : GLx s x -> GLx (release_permit s) x.
+  Proof.
+    intros G i k Hk Hp. rewrite loc_release_permit. revert Hk. unfold release_permit.
+    destruct (waiters s) as [|w r]; [intro Hk; apply (G i k Hk Hp)|].
+    intro Hk. destruct (nth_set_phase_inv _ _ _ _ _ Hk) as (k0 & Ek0 & Eid & [[Hne ->]|[-> Hph']]).
+    - apply (G i k0 Ek0 Hp).
+    - congruence.
+  Qed.
+  Lemma GL_release_permit s : GL s -> GL (release_permit s).
+  Proof.
+    intros G i k Hk Hp. rewrite loc_release_permit. revert Hk. unfold release_permit.
+    destruct (waiters s) as [|w r]; [intro Hk; eapply G; eassumption|].
+    intro Hk. destruct (nth_set_phase_inv _ _ _ _ _ Hk) as (k0 & Ek0 & Eid & [[Hne ->]|[-> Hph']]).
+    - apply (G i k0 Ek0 Hp).
+    - congruence.
+  Qed.
+
+  (* ---------------------------------------------------------------- q_poll_recv *)
+  Lemma q_poll_recv_some s q s' :
+    q_poll_recv s = (RvSome q, s') ->
+    exists rest, queue s = q :: rest /\
+      s' = release_permit (upd_q s (permits s) rest (waiters s) (rx_closed s)).
+  Proof.
+    unfold q_poll_recv. destruct (queue s) as [|x rest].
+    - destruct (Nat.eqb _ _); [discriminate|]. destruct (_ && _); discriminate.
+    - intros [= <- <-]. eauto.
+  Qed.
+  Lemma q_poll_recv_other s r s' :
+    q_poll_recv s = (r, s') -> (forall q, r <> RvSome q) -> s' = s /\ queue s = [].
+  Proof.
+    unfold q_poll_recv. destruct (queue s) as [|x rest].
+    - destruct (Nat.eqb _ _); [intros [= <- <-]; auto|]. destruct (_ && _); intros [= <- <-]; auto.
+    - intros [= <- <-] H. exfalso. eapply H; reflexivity.
+  Qed.
+
+  Lemma IX_q_poll_recv s r s' : q_poll_recv s = (r, s') -> IX s -> IX s'.
+  Proof.
+    intros H [A C W]. destruct r as [q| |];
+      try (destruct (q_poll_recv_other _ _ _ H) as [-> _]; [discriminate|constructor; assumption]).
+    destruct (q_poll_recv_some _ _ _ H) as (rest & Eq & ->).
+    set (s1 := upd_q s (permits s) rest (waiters s) (rx_closed s)).
+    assert (W1 : GW 1 s1).
+    { destruct W as [W1 W2 W3 W4 W5 W6]. constructor; try assumption.
+      cbn [s1 rx_closed queue permits calls q_cap upd_q]. intro Hc. specialize (W6 Hc).
+      rewrite Eq in W6. cbn [length] in W6. lia. }
+    constructor.
+    - eapply GA_release_permit; [exact W1|]. eapply GA_frame; [| |exact A]; reflexivity.
+    - eapply GC_release_permit; [exact W1|]. eapply GC_frame; [| | |exact C]; reflexivity.
+    - apply GW_release_permit, W1.
+  Qed.
+
+  Lemma GL_q_poll_recv s r s' :
+    q_poll_recv s = (r, s') -> GL s -> match r with RvSome q => GLx s' (q_id q) | _ => GL s' end.
+  Proof.
+    intros H G. destruct r as [q| |];
+      try (destruct (q_poll_recv_other _ _ _ H) as [-> _]; [discriminate|exact G]).
+    destruct (q_poll_recv_some _ _ _ H) as (rest & Eq & ->).
+    apply GLx_release_permit. intros i k Hk Hp. cbn [calls upd_q] in Hk.
+    destruct (G i k Hk Hp) as [L|L]; unfold loc; cbn [queue inflight upd_q].
+    - rewrite Eq in L. cbn [map In] in L. destruct L as [L|L]; [left; congruence|right; left; exact L].
+    - right. right. exact L.
+  Qed.
+
+  (* ---------------------------------------------------------------- the dispatch side *)
+  Lemma IX_TFrame s s' : TFrame s s' -> IX s -> IX s'.
+  Proof.
+    intros F [A C W]. pose proof (TFrame_P _ _ F) as P. constructor.
+    - eapply GA_frame; [apply F|apply P|exact A].
+    - eapply GC_frame; [apply F|apply P|apply F|exact C].
+    - eapply GW_frame; [apply F|apply F|apply F|apply F|rewrite (tf_queue _ _ F); reflexivity|apply P|exact W].
+  Qed.
+  Lemma IX_XFrame s s' : XFrame s s' -> IX s -> IX s'.
+  Proof.
+    intros F [A C W]. pose proof (XFrame_P _ _ F) as P. constructor.
+    - eapply GA_frame; [apply F|apply P|exact A].
+    - eapply GC_frame; [apply F|apply P|apply F|exact C].
+    - eapply GW_frame; [apply F|apply F|apply F|apply F|rewrite (xf_queue _ _ F); reflexivity|apply P|exact W].
+  Qed.
+  Lemma GL_XFrame s s' : XFrame s s' -> GL s -> GL s'.
+  Proof. intro F. apply GL_frame; apply F. Qed.
+
+  Lemma rxc_q_poll_recv s r s' : q_poll_recv s = (r, s') -> rx_closed s' = rx_closed s.
+  Proof.
+    intro H. destruct r as [q| |];
+      try (destruct (q_poll_recv_other _ _ _ H) as [-> _]; [discriminate|reflexivity]).
+    destruct (q_poll_recv_some _ _ _ H) as (rest & Eq & ->). rewrite rp_rx_closed. reflexivity.
+  Qed.
+
+  Lemma next_request_loop_spec f : forall s r s',
+    next_request_loop f s = (r, s') -> IX s -> GL s ->
+    IX s' /\ rx_closed s' = rx_closed s /\
+    match r with PSome q => GLx s' (q_id q) | _ => GL s' end.
+  Proof.
+    induction f as [|f IH]; intros s r s' H X G; cbn [next_request_loop] in H.
+    - injection H as <- <-. auto.
+    - destruct (q_poll_recv s) as [x s1] eqn:E.
+      pose proof (IX_q_poll_recv _ _ _ E X) as X1.
+      pose proof (GL_q_poll_recv _ _ _ E G) as G1.
+      pose proof (rxc_q_poll_recv _ _ _ E) as R1.
+      destruct x as [q| |]; try (injection H as <- <-; auto).
+      destruct (sl_rx_closed _).
+      + apply IH in H; [|apply IX_slot_tx_drop, X1|].
+        * destruct H as (A & B & C). split; [exact A|]. split; [|exact C]. rewrite B. exact R1.
+        * eapply GLx_fix; [| |apply loc_slot_tx_drop_same|exact G1];
+            [reflexivity|intro; apply loc_slot_tx_drop].
+      + injection H as <- <-. auto.
+  Qed.
+
+  Lemma GL_insert_request s q : GLx s (q_id q) -> GL (insert_request s q).
+  Proof.
+    apply GLx_fix; [reflexivity| |].
+    - intros y [L|[L|L]]; unfold loc; cbn [queue inflight insert_request upd_if].
+      + left; exact L.
+      + right; left. apply In_map_fst_aset. right; exact L.
+      + right; right; exact L.
+    - unfold loc. right; left. cbn [inflight insert_request upd_if]. apply In_map_fst_aset. left; reflexivity.
+  Qed.
+
+  Lemma loc_remove s id t y : loc s y -> y <> id -> loc (upd_if s (aremove id (inflight s)) t) y.
+  Proof.
+    intros [L|[L|L]] Hn; unfold loc; cbn [queue inflight upd_if].
+    - left; exact L.
+    - right; left. apply In_aremove_map_fst; assumption.
+    - right; right; exact L.
+  Qed.
+  Lemma loc_remove_send s id t o y :
+    loc s y -> loc (slot_send (upd_if s (aremove id (inflight s)) t) id o) y.
+  Proof.
+    intro L. destruct (N.eq_dec y id) as [->|Hn]; [apply loc_slot_send_same|].
+    apply loc_slot_send, loc_remove; assumption.
+  Qed.
+
+  Lemma GL_complete_request s id o : GL s -> GL (snd (complete_request s id o)).
+  Proof.
+    intro G. unfold complete_request. destruct (alookup id (inflight s)); cbn [snd]; [|exact G].
+    eapply GL_mono; [|intro y; apply loc_remove_send|exact G]. rewrite calls_slot_send. reflexivity.
+  Qed.
+
+  Lemma GL_cancel_request s id :
+    GL s -> (forall i k, nth_error (calls s) i = Some k -> c_phase k = PAwaiting -> c_id k <> id) ->
+    GL (snd (cancel_request s id)).
+  Proof.
+    intros G Hn. unfold cancel_request. destruct (alookup id (inflight s)) as [e|]; cbn [snd]; [|exact G].
+    intros i k Hk Hp. cbn [calls upd_if] in Hk. apply loc_remove; [eapply G; eassumption|eapply Hn; eassumption].
+  Qed.
+
+  Lemma c_poll_recv_some s id s' :
+    c_poll_recv s = (RvSome id, s') -> exists rest, cancels s = id :: rest /\ s' = upd_cancels s rest.
+  Proof.
+    unfold c_poll_recv. destruct (cancels s) as [|x rest]; [destruct (Nat.eqb _ _); discriminate|].
+    intros [= <- <-]. eauto.
+  Qed.
+  Lemma c_poll_recv_other s r s' : c_poll_recv s = (r, s') -> (forall x, r <> RvSome x) -> s' = s.
+  Proof.
+    unfold c_poll_recv. destruct (cancels s) as [|x rest].
+    - destruct (Nat.eqb _ _); intros [= <- <-]; reflexivity.
+    - intros [= <- <-] H. exfalso. eapply H; reflexivity.
+  Qed.
+
+  Lemma IX_upd_cancels_tail s id rest : cancels s = id :: rest -> IX s -> IX (upd_cancels s rest).
+  Proof.
+    intros E [A [C1 C2] W]. constructor.
+    - eapply GA_frame; [| |exact A]; reflexivity.
+    - constructor; cbn [cancels next_id calls upd_cancels].
+      + intros x Hx. apply C1. rewrite E. right; exact Hx.
+      + intros x i k Hx. apply C2. rewrite E. right; exact Hx.
+    - eapply GW_frame; [| | | | | |exact W]; reflexivity.
+  Qed.
+
+  Lemma next_cancel_loop_spec f : forall s r s',
+    next_cancel_loop f s = (r, s') -> IX s -> GL s -> IX s' /\ GL s'.
+  Proof.
+    induction f as [|f IH]; intros s r s' H X G; cbn [next_cancel_loop] in H.
+    - injection H as <- <-. auto.
+    - destruct (c_poll_recv s) as [x s1] eqn:E.
+      destruct x as [id| |];
+        try (apply c_poll_recv_other in E; [|discriminate]; subst s1; injection H as <- <-; auto).
+      destruct (c_poll_recv_some _ _ _ E) as (rest & Ec & ->).
+      pose proof (IX_upd_cancels_tail _ _ _ Ec X) as X1.
+      assert (Hn : forall i k, nth_error (calls s) i = Some k -> c_phase k = PAwaiting -> c_id k <> id).
+      { intros i k Hk Hp. eapply (c_ne _ (ix_c _ X)); [rewrite Ec; left; reflexivity|exact Hk|].
+        rewrite Hp. reflexivity. }
+      pose proof (TFrame_cancel_request (upd_cancels s rest) id) as F.
+      pose proof (GL_cancel_request (upd_cancels s rest) id G Hn) as G2.
+      destruct (cancel_request (upd_cancels s rest) id) as [e s2]. cbn [snd] in F, G2.
+      pose proof (IX_TFrame _ _ F X1) as X2.
+      destruct e; [injection H as <- <-; auto|]. eapply IH; eassumption.
+  Qed.
+
+  Lemma GL_poll_expired s : GL s -> GL (snd (poll_expired s)).
+  Proof.
+    intro G. unfold poll_expired. destruct (min_timer (timers s) None) as [[id w]|]; [|exact G].
+    destruct (N.leb w (now s)); [|exact G]. cbn [inflight timers upd_if].
+    destruct (alookup id (inflight s)); cbn [snd].
+    - eapply GL_mono; [|intro y; apply (loc_remove_send s id (aremove id (timers s)) ODeadline y)|exact G].
+      rewrite calls_slot_send. reflexivity.
+    - eapply GL_frame; [| | | |exact G]; reflexivity.
+  Qed.
+
+  Lemma GL_complete_all s o : GL s -> GL (complete_all s o).
+  Proof.
+    intro G. unfold complete_all.
+    assert (H : forall (l : list (N * ifentry)) s0 y,
+               loc s0 y \/ In y (map fst l) ->
+               loc (fold_left (fun acc p => slot_send acc (fst p) o) l s0) y).
+    { induction l as [|[id e] r IH]; intros s0 y Hy; cbn [fold_left fst].
+      - destruct Hy as [Hy|[]]; exact Hy.
+      - apply IH. cbn [map fst In] in Hy. destruct Hy as [Hy|[<-|Hy]]; auto.
+        + left. apply loc_slot_send, Hy.
+        + left. apply loc_slot_send_same. }
+    eapply GL_mono; [| |exact G].
+    - rewrite (tf_calls _ _ (TFrame_fold_slot_send fst o (inflight s) (upd_if s [] []))). reflexivity.
+    - intros y [L|[L|L]]; apply H.
+      + left. left. exact L.
+      + right. exact L.
+      + left. right. right. exact L.
+  Qed.
+
+  (* ---------------------------------------------------------------- q_close *)
+  Notation foldp p l s := (fold_left (fun acc w => set_phase acc w p) l s).
+
+  Lemma fold_sp_field {A} (g : cstate -> A) (Hg : forall s i p, g (set_phase s i p) = g s) p l :
+    forall s, g (foldp p l s) = g s.
+  Proof. induction l as [|w r IH]; intro s; cbn [fold_left]; [reflexivity|]. rewrite IH. apply Hg. Qed.
+
+  Lemma fold_sp_nth p l : forall s j k',
+    nth_error (calls (foldp p l s)) j = Some k' ->
+    exists k, nth_error (calls s) j = Some k /\ c_id k' = c_id k /\
+      ((~ In j l /\ k' = k) \/ (In j l /\ c_phase k' = p)).
+  Proof.
+    induction l as [|w r IH]; intros s j k' H; cbn [fold_left] in H.
+    - exists k'. split; [exact H|]. split; [reflexivity|]. left. split; [intros []|reflexivity].
+    - destruct (IH _ _ _ H) as (k1 & E1 & Eid1 & D1).
+      destruct (nth_set_phase_inv _ _ _ _ _ E1) as (k & E & Eid & D).
+      exists k. split; [exact E|]. split; [congruence|].
+      destruct D1 as [[Hn ->]|[Hin Hp]].
+      + destruct D as [[Hne ->]|[-> Hp]].
+        * left. split; [|reflexivity]. intros [X|X]; [congruence|contradiction].
+        * right. split; [left; reflexivity|exact Hp].
+      + right. split; [right; exact Hin|exact Hp].
+  Qed.
+
+  Lemma fold_sp_length p l : forall s, length (calls (foldp p l s)) = length (calls s).
+  Proof. induction l as [|w r IH]; intro s; cbn [fold_left]; [reflexivity|]. rewrite IH. apply sp_length. Qed.
+
+  Lemma GA_fold_closed l : forall s,
+    GA s -> (forall w, In w l -> exists k, nth_error (calls s) w = Some k /\ idp (c_phase k) = true) ->
+    GA (foldp PAcqClosed l s).
+  Proof.
+    induction l as [|w r IH]; intros s G H; cbn [fold_left]; [exact G|].
+    apply IH.
+    - apply GA_set_phase; [exact G|discriminate|]. intros k Ek _.
+      destruct (H w (or_introl eq_refl)) as (k0 & Ek0 & Hi). congruence.
+    - intros w' Hw'. destruct (H w' (or_intror Hw')) as (k0 & Ek0 & Hi).
+      rewrite nth_set_phase. destruct (Nat.eqb_spec w' w) as [->|].
+      + rewrite Ek0. cbn. eexists; split; [reflexivity|reflexivity].
+      + eauto.
+  Qed.
+  Lemma GC_fold_closed l : forall s,
+    GC s -> (forall w, In w l -> exists k, nth_error (calls s) w = Some k /\ idp (c_phase k) = true) ->
+    GC (foldp PAcqClosed l s).
+  Proof.
+    induction l as [|w r IH]; intros s G H; cbn [fold_left]; [exact G|].
+    apply IH.
+    - apply GC_set_phase; [exact G|]. intros k Ek _.
+      destruct (H w (or_introl eq_refl)) as (k0 & Ek0 & Hi). congruence.
+    - intros w' Hw'. destruct (H w' (or_intror Hw')) as (k0 & Ek0 & Hi).
+      rewrite nth_set_phase. destruct (Nat.eqb_spec w' w) as [->|].
+      + rewrite Ek0. cbn. eexists; split; [reflexivity|reflexivity].
+      + eauto.
+  Qed.
+  Lemma GL_fold_closed l : forall s, GL s -> GL (foldp PAcqClosed l s).
+  Proof.
+    induction l as [|w r IH]; intros s G; cbn [fold_left]; [exact G|].
+    apply IH, GL_set_phase; [exact G|discriminate].
+  Qed.
+
+  Lemma q_close_closed s : rx_closed (q_close s) = true.
+  Proof. unfold q_close. destruct (rx_closed s) eqn:E; [exact E|reflexivity]. Qed.
+
+  Lemma IX_q_close s : IX s -> IX (q_close s).
+  Proof.
+    intros [A C W]. unfold q_close. destruct (rx_closed s) eqn:Ec; [constructor; assumption|].
+    assert (Hw : forall w, In w (waiters s) ->
+                 exists k, nth_error (calls s) w = Some k /\ idp (c_phase k) = true).
+    { intros w Hin. destruct (w_acq _ _ W w Hin) as (k & Ek & Ep). exists k. rewrite Ep. auto. }
+    set (s1 := foldp PAcqClosed (waiters s) s).
+    constructor.
+    - eapply GA_frame; [| |apply (GA_fold_closed (waiters s) s A Hw)]; reflexivity.
+    - eapply GC_frame; [| | |apply (GC_fold_closed (waiters s) s C Hw)]; reflexivity.
+    - constructor; cbn [waiters permits queue rx_closed calls q_cap upd_q]; try discriminate.
+      + intros w [].
+      + constructor.
+      + intros j k' Hj Hp. exfalso.
+        destruct (fold_sp_nth _ _ _ _ _ Hj) as (k & Ek & _ & [[Hn ->]|[_ Hp']]); [|congruence].
+        apply Hn. eapply (w_in _ _ W); eassumption.
+      + reflexivity.
+  Qed.
+  Lemma GL_q_close s : GL s -> GL (q_close s).
+  Proof.
+    intro G. unfold q_close. destruct (rx_closed s); [exact G|].
+    eapply GL_frame; [| | | |apply (GL_fold_closed (waiters s) s G)]; reflexivity.
+  Qed.
+
+  Lemma q_close_fields s :
+    inflight (q_close s) = inflight s /\ queue (q_close s) = queue s /\
+    terminal (q_close s) = terminal s /\ finished (q_close s) = finished s /\
+    dropped (q_close s) = dropped s /\ slots (q_close s) = slots s /\ cancels (q_close s) = cancels s /\
+    timers (q_close s) = timers s.
+  Proof.
+    unfold q_close. destruct (rx_closed s); [repeat split; reflexivity|].
+    cbn [inflight queue terminal finished dropped slots cancels timers upd_q].
+    repeat split;
+      [apply (fold_sp_field _ sp_inflight)|apply (fold_sp_field _ sp_queue)
+      |apply (fold_sp_field _ sp_terminal)|apply (fold_sp_field _ sp_finished)
+      |apply (fold_sp_field _ sp_dropped)|apply (fold_sp_field _ sp_slots)
+      |apply (fold_sp_field _ sp_cancels)|apply (fold_sp_field _ sp_timers)].
+  Qed.
+
+  (* ---------------------------------------------------------------- shut_down *)
+  Lemma drain_loop_spec f a : forall s b s',
+    drain_loop f a s = (b, s') -> IX s -> GL s ->
+    IX s' /\ GL s' /\ rx_closed s' = rx_closed s /\ inflight s' = inflight s /\
+    (b = true -> queue s' = []).
+  Proof.
+    induction f as [|f IH]; intros s b s' H X G; cbn [drain_loop] in H.
+    - injection H as <- <-. refine (conj X (conj G (conj eq_refl (conj eq_refl _)))). discriminate.
+    - destruct (q_poll_recv s) as [x s1] eqn:E.
+      pose proof (IX_q_poll_recv _ _ _ E X) as X1.
+      pose proof (GL_q_poll_recv _ _ _ E G) as G1.
+      pose proof (rxc_q_poll_recv _ _ _ E) as R1.
+      pose proof (qf_inflight _ _ (QFrame_q_poll_recv s)) as I1. rewrite E in I1. cbn [snd] in I1.
+      destruct x as [q| |].
+      + apply IH in H; [|apply IX_slot_send, X1|].
+        * destruct H as (A & B & C & D & F). refine (conj A (conj B (conj _ (conj _ F)))).
+          -- rewrite C. rewrite (tf_rxc _ _ (TFrame_slot_send s1 (q_id q) (OConnErr a))). exact R1.
+          -- rewrite D. rewrite (qf_inflight _ _ (QFrame_slot_send s1 (q_id q) (OConnErr a))). exact I1.
+        * eapply GLx_fix; [| |apply loc_slot_send_same|exact G1];
+            [apply calls_slot_send|intro; apply loc_slot_send].
+      + injection H as <- <-. destruct (q_poll_recv_other _ _ _ E) as [-> Q]; [discriminate|].
+        refine (conj X (conj G (conj eq_refl (conj eq_refl _)))). intros _; exact Q.
+      + injection H as <- <-. refine (conj X1 (conj G1 (conj R1 (conj I1 _)))). discriminate.
+  Qed.
+
+  Lemma inflight_fold_slot_send {A} (f : A -> N) o (l : list A) : forall s,
+    inflight (fold_left (fun acc p => slot_send acc (f p) o) l s) = inflight s.
+  Proof.
+    induction l as [|x r IH]; intro s; cbn [fold_left]; [reflexivity|].
+    rewrite IH. apply (qf_inflight _ _ (QFrame_slot_send s (f x) o)).
+  Qed.
+
+  Lemma shut_down_spec s a b s' :
+    shut_down s a = (b, s') -> IX s -> GL s ->
+    IX s' /\ GL s' /\ rx_closed s' = true /\ inflight s' = [] /\ (b = true -> queue s' = []).
+  Proof.
+    unfold shut_down. intros H X G.
+    pose proof (TFrame_complete_all (q_close s) (OConnErr a)) as F.
+    apply drain_loop_spec in H;
+      [|eapply IX_TFrame; [exact F|apply IX_q_close, X]|apply GL_complete_all, GL_q_close, G].
+    destruct H as (A & B & C & D & E). refine (conj A (conj B (conj _ (conj _ E)))).
+    - rewrite C, (tf_rxc _ _ F). apply q_close_closed.
+    - rewrite D. unfold complete_all. rewrite inflight_fold_slot_send. reflexivity.
+  Qed.
+
+  (* ---------------------------------------------------------------- one dispatch poll *)
+  Variable tp : transport T cmsg resp.
+
+  Record DI s : Prop := { di_x : IX s; di_l : GL s }.
+
+  Lemma DI_XFrame s s' : XFrame s s' -> DI s -> DI s' /\ rx_closed s' = rx_closed s.
+  Proof.
+    intros F [X G]. split; [constructor; [eapply IX_XFrame|eapply GL_XFrame]; eassumption|apply F].
+  Qed.
+
+  Lemma DI_poll_write_request s r s' :
+    poll_write_request tp s = (r, s') -> DI s -> DI s' /\ rx_closed s' = rx_closed s.
+  Proof.
+    intros H D. apply poll_write_request_inv in H.
+    destruct H as [_|r s1 _ H1 Hr|r s1 s2 _ H1 H2 Hr|s1 q s2 w s3 L H1 H2 H3].
+    - auto.
+    - eapply DI_XFrame; [eapply XFrame_ensure_writeable, H1|exact D].
+    - destruct (DI_XFrame _ _ (XFrame_ensure_writeable _ _ _ _ H1) D) as [[X1 G1] R1].
+      destruct (next_request_loop_spec _ _ _ _ H2 X1 G1) as (X2 & R2 & G2).
+      split; [|congruence]. constructor; [exact X2|]. destruct r; try exact G2. discriminate.
+    - destruct (DI_XFrame _ _ (XFrame_ensure_writeable _ _ _ _ H1) D) as [[X1 G1] R1].
+      destruct (next_request_loop_spec _ _ _ _ H2 X1 G1) as (X2 & R2 & G2).
+      pose proof (TFrame_insert_request s2 q) as F3.
+      pose proof (XFrame_do_send _ _ _ _ _ H3) as F4.
+      assert (D3 : DI s3 /\ rx_closed s3 = rx_closed s).
+      { destruct (DI_XFrame _ _ F4 (Build_DI _ (IX_TFrame _ _ F3 X2) (GL_insert_request _ _ G2))) as [D3 R3].
+        split; [exact D3|]. rewrite R3, (tf_rxc _ _ F3). congruence. }
+      destruct w; [exact D3|]. destruct D3 as [[X3 G3] R3].
+      pose proof (TFrame_complete_request s3 (q_id q) OSendErr) as F5.
+      split; [constructor; [eapply IX_TFrame; eassumption|apply GL_complete_request, G3]|].
+      rewrite (tf_rxc _ _ F5). exact R3.
+  Qed.
+
+  Lemma DI_poll_write_cancel s r s' :
+    poll_write_cancel tp s = (r, s') -> DI s -> DI s' /\ rx_closed s' = rx_closed s.
+  Proof.
+    intros H D. apply poll_write_cancel_inv in H.
+    destruct H as [r s1 H1 Hr|r s1 s2 H1 H2 Hr|s1 id e s2 w s3 H1 H2 H3].
+    - eapply DI_XFrame; [eapply XFrame_ensure_writeable, H1|exact D].
+    - destruct (DI_XFrame _ _ (XFrame_ensure_writeable _ _ _ _ H1) D) as [[X1 G1] R1].
+      destruct (next_cancel_loop_spec _ _ _ _ H2 X1 G1) as (X2 & G2).
+      pose proof (CFrame_next_cancel_loop (S (length (cancels s1))) s1) as F. rewrite H2 in F. cbn [snd] in F.
+      split; [constructor; assumption|]. rewrite (cf_rxc _ _ F). exact R1.
+    - destruct (DI_XFrame _ _ (XFrame_ensure_writeable _ _ _ _ H1) D) as [[X1 G1] R1].
+      destruct (next_cancel_loop_spec _ _ _ _ H2 X1 G1) as (X2 & G2).
+      pose proof (CFrame_next_cancel_loop (S (length (cancels s1))) s1) as F. rewrite H2 in F. cbn [snd] in F.
+      destruct (DI_XFrame _ _ (XFrame_do_send _ _ _ _ _ H3) (Build_DI _ X2 G2)) as [D3 R3].
+      split; [exact D3|]. rewrite R3, (cf_rxc _ _ F). exact R1.
+  Qed.
+
+  Lemma DI_poll_expired s : DI s -> DI (snd (poll_expired s)) /\ rx_closed (snd (poll_expired s)) = rx_closed s.
+  Proof.
+    intros [X G]. pose proof (TFrame_poll_expired s) as F.
+    split; [constructor; [eapply IX_TFrame; eassumption|apply GL_poll_expired, G]|apply F].
+  Qed.
+
+  Lemma DI_pump_write s r s' :
+    pump_write tp s = (r, s') -> DI s -> DI s' /\ rx_closed s' = rx_closed s.
+  Proof.
+    intros H D. apply pump_write_inv in H.
+    destruct H as [a s1 H1|u s1 H1|r1 s1 a s2 H1 I1 H2|r1 s1 u s2 H1 I1 H2
+                  |r1 s1 r2 s2 id s3 H1 I1 H2 I2 H3|s1 s2 s3 x s4 H1 H2 H3 H4
+                  |r1 s1 r2 s2 s3 x s4 H1 I1 H2 I2 I12 H3 H4];
+      destruct (DI_poll_write_request _ _ _ H1 D) as [D1 R1]; try (split; assumption);
+      destruct (DI_poll_write_cancel _ _ _ H2 D1) as [D2 R2]; try (split; [assumption|congruence]);
+      destruct (DI_poll_expired s2 D2) as [D3 R3]; rewrite H3 in D3, R3; cbn [snd] in D3, R3;
+      try (split; [assumption|congruence]).
+    - destruct (DI_XFrame _ _ (XFrame_do_close _ _ _ _ H4) D3) as [D4 R4]. split; [assumption|congruence].
+    - destruct (DI_XFrame _ _ (XFrame_do_flush _ _ _ _ H4) D3) as [D4 R4]. split; [assumption|congruence].
+  Qed.
+
+  Lemma DI_pump_read s r s' :
+    pump_read tp s = (r, s') -> DI s -> DI s' /\ rx_closed s' = rx_closed s.
+  Proof.
+    intros H D. apply pump_read_inv in H. destruct H as (x & s1 & H1 & -> & ->).
+    destruct (DI_XFrame _ _ (XFrame_do_next _ _ _ _ H1) D) as [D1 R1].
+    destruct x; try (split; assumption).
+    pose proof (TFrame_complete s1 x) as F. destruct D1 as [X1 G1].
+    split; [constructor; [eapply IX_TFrame; eassumption|apply GL_complete_request, G1]|].
+    rewrite (tf_rxc _ _ F). exact R1.
+  Qed.
+
+  Lemma DI_run_loop f : forall s r s',
+    run_loop tp f s = (r, s') -> DI s -> DI s' /\ rx_closed s' = rx_closed s.
+  Proof.
+    induction f as [|f IH]; intros s r s' H D; [cbn in H; injection H as _ <-; auto|].
+    apply run_loop_inv in H.
+    destruct H as [a s1 H1|rd s1 a s2 H1 N1 H2|s1 wr s2 H1 H2 N2|rd s1 s2 H1 D1 H2 L2
+                  |s1 wr s2 H1 H2 D2|rd s1 wr s2 r s3 H1 H2 D' H3];
+      destruct (DI_pump_read _ _ _ H1 D) as [E1 R1]; try (split; assumption);
+      destruct (DI_pump_write _ _ _ H2 E1) as [E2 R2]; try (split; [assumption|congruence]).
+    destruct (IH _ _ _ H3 E2) as [E3 R3]. split; [assumption|congruence].
+  Qed.
+
+  Lemma IX_same s s' :
+    calls s' = calls s -> next_id s' = next_id s -> cancels s' = cancels s ->
+    waiters s' = waiters s -> permits s' = permits s -> rx_closed s' = rx_closed s ->
+    queue s' = queue s -> q_cap s' = q_cap s -> IX s -> IX s'.
+  Proof.
+    intros E1 E2 E3 E4 E5 E6 E7 E8 [A C W]. constructor.
+    - eapply GA_frame; eassumption.
+    - eapply GC_frame; eassumption.
+    - eapply GW_frame; try eassumption. rewrite E7. reflexivity.
+  Qed.
+  Lemma DI_same s s' :
+    calls s' = calls s -> next_id s' = next_id s -> cancels s' = cancels s ->
+    waiters s' = waiters s -> permits s' = permits s -> rx_closed s' = rx_closed s ->
+    queue s' = queue s -> q_cap s' = q_cap s -> inflight s' = inflight s -> slots s' = slots s ->
+    DI s -> DI s'.
+  Proof.
+    intros E1 E2 E3 E4 E5 E6 E7 E8 E9 E10 [X G]. constructor.
+    - eapply IX_same; eassumption.
+    - eapply GL_frame; eassumption.
+  Qed.
+
+  Lemma poll_dispatch_spec fuel s r s1 :
+    poll_dispatch tp fuel s = (r, s1) -> DI s -> GR s -> finished s = None -> dropped s = false ->
+    DI s1 /\ (rx_closed s1 = true -> terminal s1 <> None \/ dropped s1 = true) /\
+    finished s1 = None /\ dropped s1 = false /\
+    (forall a, r = DReady (DErr a) -> rx_closed s1 = true /\ queue s1 = [] /\ inflight s1 = []).
+  Proof.
+    unfold poll_dispatch. intros H D R Hf Hd. destruct (terminal s) as [a|] eqn:Et.
+    - destruct (shut_down s a) as [b s'] eqn:Es.
+      pose proof (PFrame_shut_down _ _ _ _ Es) as P.
+      destruct (shut_down_spec _ _ _ _ Es (di_x _ D) (di_l _ D)) as (X1 & G1 & C1 & I1 & Q1).
+      assert (E : s1 = s') by (destruct b; congruence). subst s1.
+      split; [constructor; assumption|]. split; [intros _; left; rewrite (pf_terminal _ _ P); congruence|].
+      split; [rewrite (pf_finished _ _ P); exact Hf|]. split; [rewrite (pf_dropped _ _ P); exact Hd|].
+      intros a' Ha. destruct b; [|congruence]. auto.
+    - destruct (run_loop tp fuel s) as [rr s'] eqn:Er.
+      pose proof (PFrame_run_loop _ _ _ _ _ Er) as P.
+      destruct (DI_run_loop _ _ _ _ Er D) as [D1 R1].
+      assert (Hf' : finished s' = None) by (rewrite (pf_finished _ _ P); exact Hf).
+      assert (Hd' : dropped s' = false) by (rewrite (pf_dropped _ _ P); exact Hd).
+      assert (Hr' : rx_closed s' = true -> terminal s' <> None \/ dropped s' = true).
+      { rewrite R1, (pf_terminal _ _ P), (pf_dropped _ _ P). apply R. }
+      destruct rr as [|a| |]; try (injection H as <- <-; repeat (split; [assumption|]); discriminate).
+      set (s2 := upd_term s' (Some a)) in *.
+      destruct (shut_down s2 a) as [b s3] eqn:Es.
+      pose proof (PFrame_shut_down _ _ _ _ Es) as P2.
+      assert (D2 : DI s2) by (eapply DI_same; [..|exact D1]; reflexivity).
+      destruct (shut_down_spec _ _ _ _ Es (di_x _ D2) (di_l _ D2)) as (X3 & G3 & C3 & I3 & Q3).
+      assert (E : s1 = s3) by (destruct b; congruence). subst s1.
+      split; [constructor; assumption|].
+      split; [intros _; left; rewrite (pf_terminal _ _ P2); discriminate|].
+      split; [rewrite (pf_finished _ _ P2); exact Hf'|]. split; [rewrite (pf_dropped _ _ P2); exact Hd'|].
+      intros a' Ha. destruct b; [|congruence]. auto.
+  Qed.
+
+  (* the PollDispatch op / the dispatch half of a settle round *)
+  Definition after_pd (r : dpoll) (s1 : cstate) : cstate :=
+    let s2 := match r with DReady d => upd_fin s1 (Some d) (dropped s1) | _ => s1 end in
+    upd_tr s2 (tr s2) (fused s2) [].
+
+  Lemma Inv_after_pd fuel s r s1 :
+    poll_dispatch tp fuel (upd_tr s (tr s) (fused s) []) = (r, s1) ->
+    Inv s -> finished s = None -> dropped s = false -> Inv (after_pd r s1).
+  Proof.
+    intros H [X G R Kk] Hf Hd. set (s0 := upd_tr s (tr s) (fused s) []) in *.
+    assert (D0 : DI s0) by (eapply DI_same; [..|exact (Build_DI _ X G)]; reflexivity).
+    assert (R0 : GR s0) by (eapply GR_frame; [..|exact R]; reflexivity).
+    assert (K0 : K s0) by (eapply K_frame; [..|exact Kk]; reflexivity).
+    destruct (poll_dispatch_spec _ _ _ _ H D0 R0 Hf Hd) as (D1 & C1 & F1 & Dr1 & Q1).
+    pose proof (K_poll_dispatch _ _ _ _ _ H K0) as K1.
+    assert (D2 : DI (after_pd r s1)) by (unfold after_pd; destruct r; (eapply DI_same; [..|exact D1]; reflexivity)).
+    assert (K2 : K (after_pd r s1)) by (unfold after_pd; destruct r; (eapply K_frame; [..|exact K1]; reflexivity)).
+    constructor; [apply D2|apply D2| |exact K2].
+    constructor.
+    - unfold after_pd. destruct r; cbn [rx_closed terminal dropped upd_tr upd_fin]; exact C1.
+    - unfold after_pd, dead. destruct r as [[|a]| |];
+        cbn [rx_closed finished dropped queue inflight upd_tr upd_fin]; rewrite ?F1, ?Dr1.
+      + intros [[a Ha]|Ha]; discriminate.
+      + intros _. apply (Q1 a eq_refl).
+      + intros [[a Ha]|Ha]; discriminate.
+      + intros [[a Ha]|Ha]; discriminate.
+  Qed.
 End WInv.
